@@ -51,10 +51,9 @@ CLAIMED = {
             "call made by the model reports whether the exception was an ExpressionEvaluationException."),
     "C18": ("Proved for every evaluator, state and history of API calls (all but the persist round trip = C05), also for "
             "calls that raise: contexts/routes only grow at the end, no record is removed or moved, id/route/ctxs.in/prev of "
-            "an existing record never change. A completed record with no retries left is frozen (status, decisions, published "
-            "context, retry record) through every history including reruns, late, duplicate and malformed events; with "
-            "retries left the same holds through every operation except a further event addressed to that record (one "
-            "completion report per attempt), and a witness shows a duplicate report can reopen it otherwise. A retried "
+            "an existing record never change. A completed record is frozen (status, decisions, published context, retry record) through every "
+            "history including reruns, late, duplicate and malformed events, whatever its retry budget (after repair D33; only "
+            "an injected internal retry event is excluded, with a witness). A retried "
             "attempt decides no transition and publishes nothing.",
             "Python aliasing is outside a Gallina model; it is tied by the live-vs-model comparison and by C05."),
 }
@@ -63,8 +62,7 @@ CLAIMED.update({
     "C01": ("PARTIAL. Proved: every offer of get_next_tasks is a ready, not-completed staged entry; as an invariant of every "
             "history of API calls from a fresh conductor (reruns and raising calls included) every staged entry and every "
             "record is justified -- a start task of the graph, or each predecessor is a completed record whose transition "
-            "into it is an edge of the graph recorded satisfied -- under the protocol clause that a record which has decided "
-            "its transitions gets no further completion report while retries are left (witness without it); 'recorded "
+            "into it is an edge of the graph recorded satisfied -- with no protocol hypothesis (late and duplicate reports included); 'recorded "
             "satisfied' is exactly 'the criteria evaluated truthy in the context made from the reported status and result'; "
             "the justification of a started record is permanent. Tested, not proved: exactly-once and the multiset equality "
             "with what the definition prescribes.",
